@@ -10,32 +10,11 @@
 Require Import Ascii List ZArith NArith QArith Qcanon Bool Lia ZifyBool String.
 Require MPSV.Inline.InlineModel MPSV.Inline.InlineLR.
 Require Import MPSV.PolFile.Chars MPSV.PolFile.DecRatModel MPSV.PolFile.PolProofs MPSV.PolFile.DecRat.
+Require Import MPSV.Inline.LexLiteralModel.
 Import ListNotations.
 Local Open Scope char_scope.
 Local Open Scope list_scope.
 Notation length := List.length.
-
-(* Monomial::Monomial (const char * coeff_string, long degree): None = NULL string, set_str failure or zero denominator *)
-Definition monomial_coeff (text : list ascii) : option Q :=
-  match equiv_rational_string text with
-  | Some s => mpq_str_value s
-  | None => None
-  end.
-
-(* driver entry point: the payload of the hand model and the C conversion model agree on a lexeme (never false on a
-   lexeme of the scanner: [literal_value]; checked on every literal of every input of the scanner stage) *)
-Definition literal_consistent (text : list ascii) : bool :=
-  match InlineModel.lex_number text, monomial_coeff text with
-  | Some (InlineModel.TNum n d _, []), Some q => Qeq_bool q (Z.of_N n # d)
-  | None, None => true
-  | _, _ => false
-  end.
-
-(* "the decimal / rational value of its text" *)
-Inductive text_value : list ascii -> Q -> Prop :=
-| tv_dec : forall l, wf_api_lit l -> dl_sign l = [] -> text_value (render_declit l) (declit_value l)
-| tv_rat : forall d1 d2 dd, all_digits d1 -> d1 <> [] -> all_digits d2 -> digits_val d2 = Npos dd ->
-    text_value (d1 ++ "/" :: d2) (Qred (Z.of_N (digits_val d1) # dd)).
 
 (* ------------------------------------------------------------------ bridges between the two character models *)
 Lemma is_digit_bridge : forall c, InlineModel.is_digit c = is_digit c.
